@@ -53,6 +53,15 @@ func (p *zzProject) put(name, content string) {
 	zzPut(name, content)
 }
 
+// dangling creates a symbolic link whose target does not exist.
+func (p *zzProject) dangling(name string) {
+	if zz.Native() {
+		os.Symlink(p.path("nowhere"), p.path(name))
+		return
+	}
+	zzDangling[name] = true
+}
+
 func (p *zzProject) touch(name string) {
 	if zz.Native() {
 		time.Sleep(15 * time.Millisecond)
@@ -143,6 +152,7 @@ type zzHist struct {
 	killAt    string // probe during which the process of this step is killed ("" = not killed)
 	cmdIgnore   bool // the commands of the task have ignore_error: true
 	twoGen      bool // a second generates entry (out2), written together with the first
+	genEarly    bool // the first command writes the generated file, a later one may fail
 	hasStatus   bool // the task also has a status: command
 	statusFails bool // ... which fails in this step
 	exit      map[string]uint8
@@ -254,7 +264,7 @@ func (h *zzHist) cmdText(k int, last bool) string {
 		if h.sibling {
 			s += "sleep 1; "
 		}
-		if last && h.hasGen {
+		if h.hasGen && ((last && !h.genEarly) || (k == 0 && h.genEarly)) {
 			s += "echo built > out; "
 			if h.twoGen {
 				s += "echo built > out2; "
@@ -262,7 +272,7 @@ func (h *zzHist) cmdText(k int, last bool) string {
 		}
 		return s + fmt.Sprintf("echo F:%s:0", id)
 	}
-	if last && h.hasGen {
+	if h.hasGen && ((last && !h.genEarly) || (k == 0 && h.genEarly)) {
 		return "hprobe " + id + " 1"
 	}
 	return "hprobe " + id + " 0"
@@ -475,6 +485,10 @@ func ZZ_H_History() {
 		h.twoGen = true
 	}
 	h.twoCmds = zz.Param("two_cmds", 0) == 1 && zz.Bool("two_cmds")
+	if zz.Param("early_gen_history", 0) == 1 { // focused history: the first of two commands writes the generated file
+		zz.Assume(h.hasGen)
+		h.twoCmds, h.genEarly = true, true
+	}
 	h.methodOnTask = prop != 12 && !focusKill && zz.Bool("method_set_on_task")
 	h.reinclude = (prop == 5 || prop == 4) && !focusKill && zz.Bool("sources_reinclude_excluded_file")
 	h.nestedGuard = prop == 12 && !focusKill && zz.Bool("nested_call_with_failing_guard")
@@ -482,6 +496,9 @@ func ZZ_H_History() {
 	zzPreFail = true
 	h.p.put("a.src", "v0")
 	h.p.put("skip.src", "s0")
+	if zz.Param("dangling_history", 0) == 1 { // focused history: a link to nowhere sits among the sources
+		h.p.dangling("z.src")
+	}
 	// ghost state: the source version for which the most recent attempt to run the
 	// commands succeeded completely (-1: none, or the last attempt did not succeed)
 	version := 0
@@ -577,7 +594,7 @@ func ZZ_H_History() {
 		} else if mode == zzModeSibling {
 			zz.Assume(false) // covered by the focused history (registered separately)
 		}
-		if h.hasStatus || h.twoGen || zz.Param("removal_history", 0) == 1 {
+		if h.hasStatus || h.twoGen || h.genEarly || zz.Param("removal_history", 0) == 1 || zz.Param("dangling_history", 0) == 1 {
 			zz.Assume(mode != zzModeForce) // forced runs are the subject of the plain histories
 		}
 		if zz.Param("query_history", 0) == 1 {
@@ -712,14 +729,15 @@ func ZZ_H_Instances() {
 		h.p.put("b.src", "w0")
 	}
 	insts := []string{"a", "b"}
-	if zz.Bool("instance_names_differ_only_in_punctuation") {
-		// labels build-p:q and build-p-q: different tasks must not share fingerprint state
-		insts = []string{"p:q", "p-q"}
-		h.p.put("p:q.src", "v0")
+	if pair := zz.Choose("instance_names_differ_only_in_punctuation", 3); pair > 0 {
+		// labels build-p:q and build-p-q (one of them is its own normal form), or build-p:q
+		// and build-p.q (neither is): different tasks must not share fingerprint state
+		insts = [][]string{nil, {"p:q", "p-q"}, {"p:q", "p.q"}}[pair]
+		h.p.put(insts[0]+".src", "v0")
 		if same {
-			h.p.put("p-q.src", "v0")
+			h.p.put(insts[1]+".src", "v0")
 		} else {
-			h.p.put("p-q.src", "w0")
+			h.p.put(insts[1]+".src", "w0")
 		}
 	}
 	version := map[string]int{insts[0]: 0, insts[1]: 0}
